@@ -19,7 +19,7 @@ def register(PROPS, h):
               "Non-trivial = scenario in which some namespace changed; distinct by case seed."),
         assumptions=F_TB + ["'advertised data' is read as the advertised signed-refs commit: unsigned or moved plain refs on the server are not replicated at all, which is checked through the client-side clause",
                             "the local node's own namespace is never requested via refs_at (the service filters it)"],
-        gates=dict(quick={"cases.with-a-changed-namespace": 100, "cases.with-an-invalid-namespace-offered": 60, "changed-namespaces-checked": 150, "offered:SigFlipped": 20, "offered:Rekeyed": 15, "offered:RootOtherRepo": 15, "offered:RootOmitted": 15, "offered:NonCanonicalBlob": 15, "offered:UnsignedExtraRef": 15, "offered:SignedRefMoved": 15, "offered:GarbageBlob": 15},
+        gates=dict(quick={"cases.with-a-changed-namespace": 100, "cases.with-an-invalid-namespace-offered": 60, "changed-namespaces-checked": 150, "offered:SigFlipped": 12, "offered:Rekeyed": 10, "offered:RootOtherRepo": 10, "offered:RootOmitted": 10, "offered:NonCanonicalBlob": 10, "offered:UnsignedExtraRef": 10, "offered:SignedRefMoved": 10, "offered:GarbageBlob": 10, "offered:TagRecreated": 10, "offered:BranchBecomesDirectory": 10, "offered:BranchRewound": 10, "cases.refs_at-with-stale-announced-tip": 10},
                    thorough={"cases.with-a-changed-namespace": 800, "cases.with-an-invalid-namespace-offered": 700}),
         runs=dict(quick=[native("h-fetch", "C01")], thorough=[native("h-fetch", "C01"), native("h-fetch", "C01", profile="release"), valgrind("h-fetch", "C01", cases=48, shards=16)]),
     )
